@@ -276,5 +276,27 @@ class LazyReal(Part):
         return res
 
 
+class StatesPart(Part):
+    name = "every_reachable_memo_state"
+    desc = "common-prefix oracle evaluated in every memo state reachable by anonymize/undo histories"
+
+    def __init__(self, tier, seed):
+        self.tier, self.seed = tier, seed
+
+    def cases(self):
+        from props import ipgraph
+
+        return [c for c in ipgraph.configs(self.tier, self.seed) if not (c["fam"] == "g" and c["L"] == 4)]
+
+    def run(self, cfg):
+        from props import ipgraph
+
+        if "hist" in cfg:
+            res = Res()
+            res.violations = ipgraph.replay_history(cfg["cfg"], cfg["hist"], {"c01"})
+            return res
+        return ipgraph.explore_cfg(cfg, {"c01"})
+
+
 def parts(tier, seed):
-    return [SmallWidth(tier, seed), FullWidth(tier, seed), LazyReal(tier, seed)]
+    return [SmallWidth(tier, seed), FullWidth(tier, seed), LazyReal(tier, seed), StatesPart(tier, seed)]
